@@ -211,6 +211,28 @@ func runC03(p *core.Program, r *core.Report) {
 			for _, st := range fieldStores([]*ssa.Function{f}, "Heap", "data") {
 				c.ob("AG1", fname, "writes the heap array", p.InstrPos(st), writers[f.Name()], "h.data is replaced by a function the conservation rules do not cover")
 			}
+			// the array itself handed to another function (Sort(h.data, ...), Reverse(h.data)):
+			// only the functions the structure rules cover may do that
+			if !sifters[f.Name()] && !writers[f.Name()] && f != getIndex {
+				for _, in := range path.Instrs(f) {
+					call, ok := in.(ssa.CallInstruction)
+					if !ok {
+						continue
+					}
+					if _, isB := call.Common().Value.(*ssa.Builtin); isB {
+						continue
+					}
+					for _, a := range call.Common().Args {
+						v := a
+						if sl, ok := v.(*ssa.Slice); ok {
+							v = sl.X
+						}
+						if isLoadOfField(v, "Heap", "data") {
+							c.ob("AG1", fname, "hands the heap array to another function", p.InstrPos(in), false, "h.data is passed to "+call.Common().Value.Name()+" by a function the structure rules do not cover: the callee can reorder or overwrite the array behind the heap's back")
+						}
+					}
+				}
+			}
 			// single slots: only the removal paths overwrite an element in place (the
 			// victim's slot receives the last element)
 			for _, in := range path.Instrs(f) {
